@@ -241,6 +241,7 @@ func run(r *core.Run) {
 		"through load-string, load-bytes, load-message x the four (:string-numbers, :exact-integers) keyword combinations (sequences of 5 tokens, thorough only: load-string x 4 modes, load-bytes :exact-integers, load-message default), plus load-string under the four json:use-* default combinations for the shorter sequences. " +
 		"H: every dump history of the shapes {bad,fix,good | bad,bad,fix,good | good,poison,bad,fix,good | bad,fix,good-rewrapped | bad,other-good,fix,good} over towers of maps / vectors / lists-in-maps of the stated depths (around the encoder's 64-level second pass), " +
 		"failing leaf in {NaN,+Inf,-Inf,lambda,self-reference,reference to the root} set and repaired IN PLACE with assoc!/dissoc!, through dump-string / dump-bytes / dump-message with and without :string-numbers (failing and final dump through the same form, plus every pair of different forms at depth 80); non-trivial history = the tower reaches the second pass. " +
+		"LOAD histories: for every seed document with an empty container (hand documents [] {} [[],[]] {a:[],b:[]} {a:{},b:{}} [{},{}] ...) x 5 load forms: load it, mutate EVERY container of the result in place (append! a marker to every vector, assoc! a marker into every map); then for every valid token-sequence document of the small bound that holds an empty array/object (top level, nested, repeated) x 3 load entry points x 4 modes: load it in the same runtime and in another runtime - the value must be fresh (agree with the independent decoder) - and, for each container of that value in turn, reload, mutate only that container and demand the rest unchanged (distinct containers of one document are distinct objects). " +
 		"Non-trivial value = a container, a float, an int beyond 2^53 or a string needing an escape/non-ASCII (distinct by rendering); non-trivial document = the reference recogniser accepts it (distinct by bytes). " +
 		"states = enumerated terms (values + token sequences + byte strings; distinct token sequences may concatenate to the same bytes), transitions = json:* calls compared with the reference.")
 	r.Assume("oracle = own RFC 8259 recogniser/decoder (no encoding/json, no strconv float parsing, no unicode/utf8); a number means the float64 nearest to its exact decimal value (math/big, ties to even), -0 keeps its sign")
